@@ -614,4 +614,79 @@ def r10_generated_parser_copies_the_model(a, tier):
     return rep
 
 
-RULES = [r_chain, r1_registry, r2_fields, r3_string_images, r4_cycles, r5_state_keys, r6_exports, r7_source_literals, r8_structure, r9_node_state, r10_generated_parser_copies_the_model]
+def r11_from_json_keeps_members(a, tier):
+    """Grammar.__from_json__ builds the grammar from the decoded members AS THEY ARE"""
+    from ..minieval import Unsupported
+    from ..modelinterp import ClassRef, FuncRef, Hook, ModelInterp, Stub
+    rep = RuleReport(
+        'C14.R11',
+        'a reloaded grammar is the grammar that was written out: Grammar.__from_json__, interpreted on decoded members (rules among them a '
+        'based rule whose embedded base differs from the rule the grammar now has under that name - the base was overridden after the '
+        'extension -, a rule include, directives, keywords), hands the Grammar constructor the decoded name, directives, keywords and the '
+        'SAME rule objects in the same order, and changes no attribute of any decoded rule on the way (a based rule is bound to its base '
+        'when it is defined, not when it is loaded)',
+        floor=4,
+    )
+    G = 'tatsu.peg.base.Grammar'
+    fj = a.ct.lookup(G, '__from_json__')
+    if fj is None or fj.cls is None or fj.cls.qualname != G:
+        rep.add({'Grammar.__from_json__': 'inherited (the generic reconstruction, C14.R8)'})
+        rep.floor = 1
+        return rep
+    tok = lambda t: Stub('tatsu.peg.basic.Token', token=t)  # noqa: E731
+    old_base = Stub('tatsu.peg.base.Rule', name='prefix', exp=tok('#'), params=(), kwparams={}, base=None, decorators=[])
+    new_base = Stub('tatsu.peg.base.Rule', name='prefix', exp=tok('@'), params=('P',), kwparams={'k': 1}, base=None, decorators=['override'])
+    old_rhs = Stub('tatsu.peg.syntax.Sequence', sequence=[old_base._attrs['exp'], tok('x')])
+    based = Stub('tatsu.peg.rulelike.BasedRule', name='long', exp=tok('x'), params=(), kwparams={}, base='prefix', baserule=old_base, rhs=old_rhs, decorators=[])
+    start = Stub('tatsu.peg.base.Rule', name='start', exp=Stub('tatsu.peg.rulelike.RuleInclude', name='prefix', _exp=None), params=(), kwparams={}, base=None, decorators=[])
+    rules = [start, based, new_base]
+    data = {'__class__': 'Grammar', 'name': 'Demo', 'rules': rules, 'directives': {'whitespace': ' '}, 'keywords': ['if']}
+    snap = {id(r): {k: (id(v) if isinstance(v, Stub) else repr(v)) for k, v in r._attrs.items()} for r in rules + [old_base]}
+    built: list = []
+
+    def construct(*args, **kw):
+        built.append((args, kw))
+        return Stub(G, **{k: v for k, v in kw.items()})
+
+    def generic(d):
+        return Stub(G, **{k: v for k, v in dict(d).items() if k != '__class__'})
+    it = ModelInterp(a, {'__super__': Hook(None, __from_json__=Hook(generic)), 'Grammar': Hook(construct, q=G),
+                         'Sequence': Hook(lambda *x, **k: Stub('tatsu.peg.syntax.Sequence', sequence=list(k.get('ast') or k.get('sequence') or (x[0] if x else []))), q='tatsu.peg.syntax.Sequence'),
+                         'typename': Hook(lambda o: o._cls.split('.')[-1] if isinstance(o, Stub) else type(o).__name__)})
+    try:
+        it.modstack.append(fj.module.name)
+        res = it._call_with_env(fj.node, [Hook(construct, q=G), data], {}, {'__class_q__': G})
+        it.modstack.pop()
+    except Unsupported as e:
+        raise AnalysisError(f'C14.R11: cannot interpret Grammar.__from_json__: {e}') from e
+    got_rules = None
+    src = None
+    if built:
+        args, kw = built[-1]
+        got_rules, src = kw.get('rules'), kw
+    elif isinstance(res, Stub):
+        got_rules, src = res._attrs.get('rules'), res._attrs
+    same_rules = got_rules is not None and len(list(got_rules)) == 3 and all(x is y for x, y in zip(got_rules, rules))
+    rest_ok = src is not None and src.get('name') == 'Demo' and src.get('directives') == {'whitespace': ' '} and list(src.get('keywords') or ()) == ['if']
+    changed = []
+    for r in rules + [old_base]:
+        now = {k: (id(v) if isinstance(v, Stub) else repr(v)) for k, v in r._attrs.items()}
+        for k in sorted(set(now) | set(snap[id(r)])):
+            if now.get(k) != snap[id(r)].get(k):
+                changed.append(f'{r._attrs.get("name")}.{k}')
+    rep.add({'rules_handed_on': [r._attrs.get('name') for r in got_rules] if got_rules is not None else None, 'same_objects_same_order': same_rules})
+    rep.add({'name_directives_keywords_handed_on': rest_ok})
+    rep.add({'attributes_of_decoded_rules_changed': changed})
+    rep.add({'based_rule_still_bound_to': 'the base it was defined on' if based._attrs.get('baserule') is old_base else 'another rule'})
+    if not same_rules:
+        rep.fail(fj.qualname, 'from-json:rules', f'Grammar.__from_json__ builds the grammar from {[r._attrs.get("name") if isinstance(r, Stub) else r for r in (got_rules or [])]}, '
+                 f'not from the decoded rules start, long, prefix as they are and in their order', fj.loc)
+    if not rest_ok:
+        rep.fail(fj.qualname, 'from-json:settings', 'Grammar.__from_json__ does not hand the decoded name / directives / keywords to the grammar it builds', fj.loc)
+    if changed:
+        rep.fail(fj.qualname, f'from-json:mutates:{",".join(changed)[:80]}', f'Grammar.__from_json__ changes {changed} of the decoded rules: the reloaded model is not the one that was '
+                 f'written out (a based rule re-bound to the rule now registered under its base\'s name parses the OVERRIDING body where the original parses the overridden one)', fj.loc)
+    return rep
+
+
+RULES = [r_chain, r1_registry, r2_fields, r3_string_images, r4_cycles, r5_state_keys, r6_exports, r7_source_literals, r8_structure, r9_node_state, r10_generated_parser_copies_the_model, r11_from_json_keeps_members]
